@@ -28,7 +28,7 @@ func (c12) Meta(tier string) engine.Meta {
 	}
 	return engine.Meta{
 		Level: "model_checking",
-		Rule: fmt.Sprintf("(a) ALL token sequences of <= %d tokens over a 26-token alphabet through Eval, Compile + call (closure back end) and Debug; (b) every single token insertion / deletion / duplication / replacement of a 24-program corpus (thorough: also double edits); the corpus re-joined with 12 kinds of white space (tab, CR, LF, CRLF, VT, FF, NBSP, U+2028, U+3000 …); (c) nesting families ( [ {a: [1: key-position maps f( - ! a?b: a?: .m [0] if( list-in-first-position, each to depth 64 (thorough 200); (d) host values of every Go shape of depth <= 2 incl. nil, typed nil, pointer to nil pointer, nil interface inside containers, cyclic pointers, recursive types, unsupported kinds (chan, func, complex, uintptr), as environment of Eval / Compile / Callable / Debug. Oracle: the API returns (value, error): a panic that escapes, or a dead worker, is a violation; the counted work (lexer tokens, parser expr calls, checker nodes, unify calls, conversion calls: build-tag Step hooks) must stay <= 200·(n+2)²+2000 for an input of n runes — enforced as a deterministic budget abort, never a wall-clock limit. non-trivial = inputs that reach the parser (not rejected by the lexer)", n),
+		Rule: fmt.Sprintf("(a) ALL token sequences of <= %d tokens over a 26-token alphabet through Eval, Compile + call (closure back end) and Debug; (b) every single token insertion / deletion / duplication / replacement of a 24-program corpus (thorough: also double edits); the corpus re-joined with 12 kinds of white space (tab, CR, LF, CRLF, VT, FF, NBSP, U+2028, U+3000 …); (c) nesting families ( [ {a: [1: key-position maps f( - ! a?b: a?: .m [0] if( list-in-first-position, each to depth 64 (thorough 200); (d) host values of every Go shape of depth <= 2 incl. nil, typed nil, pointer to nil pointer, nil interface inside containers, cyclic pointers, recursive types, unsupported kinds (chan, func, complex, uintptr), as environment of Eval / Compile / Callable / Debug. (e) chains and nests of 2…40 operands of every lazy construct (|| && or and if ?: second) with counting tracers: the number of host-function invocations must equal the reference evaluator's (evaluation work is counted, the tracer aborts past 4n+16); (f) a conditional after more than 64 KiB of code. Oracle: the API returns (value, error): a panic that escapes, or a dead worker, is a violation; the counted work (lexer tokens, parser expr calls, checker nodes, unify calls, conversion calls: build-tag Step hooks) must stay <= 200·(n+2)²+2000 for an input of n runes — enforced as a deterministic budget abort, never a wall-clock limit. non-trivial = inputs that reach the parser (not rejected by the lexer)", n),
 		Bound: fmt.Sprintf("%d tokens; nest depth 64 / 200; host shapes depth 2", n),
 		Assumptions: []string{"'polynomial' is checked as quadratic in counted steps with a 200× constant; evaluation work is bounded through C11 (forward-only bytecode) and is not step-counted"},
 	}
@@ -114,6 +114,14 @@ func (c12) Generate(tier string, yield func(*engine.Case) bool) {
 				continue
 			}
 			emit("nest-"+n.name, fmt.Sprint(d), n.f(d), "src")
+		}
+	}
+	// (e) evaluation work, counted in host-function invocations
+	c12WorkCases(emit)
+	// (f) a conditional AFTER more than 64 KiB of code: the VM must refuse (capacity) or evaluate, never loop
+	for _, n := range []int{16380, 16384, 16388, 16392, 16396, 16400, 16404, 16408, 21845, 21850} {
+		for ci, cond := range []string{"if(true, 2, 3)", "(true ? 2 : 3)", "if(true && false, 2, 3)", "if(false || true, 2, 3)"} {
+			emit("late-branch", fmt.Sprintf("%d-%d", n, ci), strings.Repeat("1+", n)+cond, "vmonly")
 		}
 	}
 	// (d) host values
@@ -323,6 +331,29 @@ func (c12) Run(c *engine.Case) *engine.Result {
 			one(strings.Join(toks, sep), env)
 			one(sep+strings.Join(toks, sep)+sep, env)
 		}
+		res.NonTrivial = true
+	case "evalwork":
+		return runC12Work(c)
+	case "vmonly":
+		// Debug's report is by design one line per recorded term (quadratic text for 16 k terms),
+		// so only the default back end is driven here
+		res.States++
+		o := callAPI(c.Src, func() error {
+			cb, err := yae.NewExpr().Compile(c.Src, c12Env())
+			if err != nil {
+				return err
+			}
+			_, err = cb(c12Env())
+			return err
+		})
+		res.Execs++
+		switch {
+		case o.exceeded:
+			res.Violations = append(res.Violations, vf("work-superquadratic", "Compile+call of %d additions followed by a conditional: step budget exceeded", strings.Count(c.Src, "+")))
+		case o.panic != "":
+			res.Violations = append(res.Violations, vf("api-panic", "Compile+call of %d additions followed by a conditional panicked: %s", strings.Count(c.Src, "+"), stable(o.panic)))
+		}
+		outcomes[fmt.Sprintf("ok=%v", o.ok)]++
 		res.NonTrivial = true
 	case "src":
 		one(c.Src, c12Env())
